@@ -179,25 +179,25 @@ Definition set_ap_lat (r : acpr) (v : N) : acpr := mk_acpr (ap_pending r) (ap_ne
 Definition set_ap_to (r : acpr) (v : N) : acpr := mk_acpr (ap_pending r) (ap_negative r) (ap_min r) (ap_max r) (ap_lat r) v (ap_reason r).
 Definition set_ap_reason (r : acpr) (v : N) : acpr := mk_acpr (ap_pending r) (ap_negative r) (ap_min r) (ap_max r) (ap_lat r) (ap_to r) v.
 
-Record state := mk_state { st : lstate; adv_ch : N; chan : ChanMapModel.state; sca : N; tm : timing; cs : cstate; proc_timeout : N; def_instant : N; deferred : option (list N); term_sent : bool; used_features : N; pending_event : bool; disc_reason : N; pr : procs; bf : bufs; sc : sec; ac : acpr; ring : list cb_event }.
-Definition set_st (r : state) (v : lstate) : state := mk_state v (adv_ch r) (chan r) (sca r) (tm r) (cs r) (proc_timeout r) (def_instant r) (deferred r) (term_sent r) (used_features r) (pending_event r) (disc_reason r) (pr r) (bf r) (sc r) (ac r) (ring r).
-Definition set_adv_ch (r : state) (v : N) : state := mk_state (st r) v (chan r) (sca r) (tm r) (cs r) (proc_timeout r) (def_instant r) (deferred r) (term_sent r) (used_features r) (pending_event r) (disc_reason r) (pr r) (bf r) (sc r) (ac r) (ring r).
-Definition set_chan (r : state) (v : ChanMapModel.state) : state := mk_state (st r) (adv_ch r) v (sca r) (tm r) (cs r) (proc_timeout r) (def_instant r) (deferred r) (term_sent r) (used_features r) (pending_event r) (disc_reason r) (pr r) (bf r) (sc r) (ac r) (ring r).
-Definition set_sca (r : state) (v : N) : state := mk_state (st r) (adv_ch r) (chan r) v (tm r) (cs r) (proc_timeout r) (def_instant r) (deferred r) (term_sent r) (used_features r) (pending_event r) (disc_reason r) (pr r) (bf r) (sc r) (ac r) (ring r).
-Definition set_tm (r : state) (v : timing) : state := mk_state (st r) (adv_ch r) (chan r) (sca r) v (cs r) (proc_timeout r) (def_instant r) (deferred r) (term_sent r) (used_features r) (pending_event r) (disc_reason r) (pr r) (bf r) (sc r) (ac r) (ring r).
-Definition set_cs (r : state) (v : cstate) : state := mk_state (st r) (adv_ch r) (chan r) (sca r) (tm r) v (proc_timeout r) (def_instant r) (deferred r) (term_sent r) (used_features r) (pending_event r) (disc_reason r) (pr r) (bf r) (sc r) (ac r) (ring r).
-Definition set_proc_timeout (r : state) (v : N) : state := mk_state (st r) (adv_ch r) (chan r) (sca r) (tm r) (cs r) v (def_instant r) (deferred r) (term_sent r) (used_features r) (pending_event r) (disc_reason r) (pr r) (bf r) (sc r) (ac r) (ring r).
-Definition set_def_instant (r : state) (v : N) : state := mk_state (st r) (adv_ch r) (chan r) (sca r) (tm r) (cs r) (proc_timeout r) v (deferred r) (term_sent r) (used_features r) (pending_event r) (disc_reason r) (pr r) (bf r) (sc r) (ac r) (ring r).
-Definition set_deferred (r : state) (v : option (list N)) : state := mk_state (st r) (adv_ch r) (chan r) (sca r) (tm r) (cs r) (proc_timeout r) (def_instant r) v (term_sent r) (used_features r) (pending_event r) (disc_reason r) (pr r) (bf r) (sc r) (ac r) (ring r).
-Definition set_term_sent (r : state) (v : bool) : state := mk_state (st r) (adv_ch r) (chan r) (sca r) (tm r) (cs r) (proc_timeout r) (def_instant r) (deferred r) v (used_features r) (pending_event r) (disc_reason r) (pr r) (bf r) (sc r) (ac r) (ring r).
-Definition set_used_features (r : state) (v : N) : state := mk_state (st r) (adv_ch r) (chan r) (sca r) (tm r) (cs r) (proc_timeout r) (def_instant r) (deferred r) (term_sent r) v (pending_event r) (disc_reason r) (pr r) (bf r) (sc r) (ac r) (ring r).
-Definition set_pending_event (r : state) (v : bool) : state := mk_state (st r) (adv_ch r) (chan r) (sca r) (tm r) (cs r) (proc_timeout r) (def_instant r) (deferred r) (term_sent r) (used_features r) v (disc_reason r) (pr r) (bf r) (sc r) (ac r) (ring r).
-Definition set_disc_reason (r : state) (v : N) : state := mk_state (st r) (adv_ch r) (chan r) (sca r) (tm r) (cs r) (proc_timeout r) (def_instant r) (deferred r) (term_sent r) (used_features r) (pending_event r) v (pr r) (bf r) (sc r) (ac r) (ring r).
-Definition set_pr (r : state) (v : procs) : state := mk_state (st r) (adv_ch r) (chan r) (sca r) (tm r) (cs r) (proc_timeout r) (def_instant r) (deferred r) (term_sent r) (used_features r) (pending_event r) (disc_reason r) v (bf r) (sc r) (ac r) (ring r).
-Definition set_bf (r : state) (v : bufs) : state := mk_state (st r) (adv_ch r) (chan r) (sca r) (tm r) (cs r) (proc_timeout r) (def_instant r) (deferred r) (term_sent r) (used_features r) (pending_event r) (disc_reason r) (pr r) v (sc r) (ac r) (ring r).
-Definition set_sc (r : state) (v : sec) : state := mk_state (st r) (adv_ch r) (chan r) (sca r) (tm r) (cs r) (proc_timeout r) (def_instant r) (deferred r) (term_sent r) (used_features r) (pending_event r) (disc_reason r) (pr r) (bf r) v (ac r) (ring r).
-Definition set_ac (r : state) (v : acpr) : state := mk_state (st r) (adv_ch r) (chan r) (sca r) (tm r) (cs r) (proc_timeout r) (def_instant r) (deferred r) (term_sent r) (used_features r) (pending_event r) (disc_reason r) (pr r) (bf r) (sc r) v (ring r).
-Definition set_ring (r : state) (v : list cb_event) : state := mk_state (st r) (adv_ch r) (chan r) (sca r) (tm r) (cs r) (proc_timeout r) (def_instant r) (deferred r) (term_sent r) (used_features r) (pending_event r) (disc_reason r) (pr r) (bf r) (sc r) (ac r) v.
+Record lstate_t := mk_state { st : lstate; adv_ch : N; chan : ChanMapModel.state; sca : N; tm : timing; cs : cstate; proc_timeout : N; def_instant : N; deferred : option (list N); term_sent : bool; used_features : N; pending_event : bool; disc_reason : N; pr : procs; bf : bufs; sc : sec; ac : acpr; ring : list cb_event }.
+Definition set_st (r : lstate_t) (v : lstate) : lstate_t := mk_state v (adv_ch r) (chan r) (sca r) (tm r) (cs r) (proc_timeout r) (def_instant r) (deferred r) (term_sent r) (used_features r) (pending_event r) (disc_reason r) (pr r) (bf r) (sc r) (ac r) (ring r).
+Definition set_adv_ch (r : lstate_t) (v : N) : lstate_t := mk_state (st r) v (chan r) (sca r) (tm r) (cs r) (proc_timeout r) (def_instant r) (deferred r) (term_sent r) (used_features r) (pending_event r) (disc_reason r) (pr r) (bf r) (sc r) (ac r) (ring r).
+Definition set_chan (r : lstate_t) (v : ChanMapModel.state) : lstate_t := mk_state (st r) (adv_ch r) v (sca r) (tm r) (cs r) (proc_timeout r) (def_instant r) (deferred r) (term_sent r) (used_features r) (pending_event r) (disc_reason r) (pr r) (bf r) (sc r) (ac r) (ring r).
+Definition set_sca (r : lstate_t) (v : N) : lstate_t := mk_state (st r) (adv_ch r) (chan r) v (tm r) (cs r) (proc_timeout r) (def_instant r) (deferred r) (term_sent r) (used_features r) (pending_event r) (disc_reason r) (pr r) (bf r) (sc r) (ac r) (ring r).
+Definition set_tm (r : lstate_t) (v : timing) : lstate_t := mk_state (st r) (adv_ch r) (chan r) (sca r) v (cs r) (proc_timeout r) (def_instant r) (deferred r) (term_sent r) (used_features r) (pending_event r) (disc_reason r) (pr r) (bf r) (sc r) (ac r) (ring r).
+Definition set_cs (r : lstate_t) (v : cstate) : lstate_t := mk_state (st r) (adv_ch r) (chan r) (sca r) (tm r) v (proc_timeout r) (def_instant r) (deferred r) (term_sent r) (used_features r) (pending_event r) (disc_reason r) (pr r) (bf r) (sc r) (ac r) (ring r).
+Definition set_proc_timeout (r : lstate_t) (v : N) : lstate_t := mk_state (st r) (adv_ch r) (chan r) (sca r) (tm r) (cs r) v (def_instant r) (deferred r) (term_sent r) (used_features r) (pending_event r) (disc_reason r) (pr r) (bf r) (sc r) (ac r) (ring r).
+Definition set_def_instant (r : lstate_t) (v : N) : lstate_t := mk_state (st r) (adv_ch r) (chan r) (sca r) (tm r) (cs r) (proc_timeout r) v (deferred r) (term_sent r) (used_features r) (pending_event r) (disc_reason r) (pr r) (bf r) (sc r) (ac r) (ring r).
+Definition set_deferred (r : lstate_t) (v : option (list N)) : lstate_t := mk_state (st r) (adv_ch r) (chan r) (sca r) (tm r) (cs r) (proc_timeout r) (def_instant r) v (term_sent r) (used_features r) (pending_event r) (disc_reason r) (pr r) (bf r) (sc r) (ac r) (ring r).
+Definition set_term_sent (r : lstate_t) (v : bool) : lstate_t := mk_state (st r) (adv_ch r) (chan r) (sca r) (tm r) (cs r) (proc_timeout r) (def_instant r) (deferred r) v (used_features r) (pending_event r) (disc_reason r) (pr r) (bf r) (sc r) (ac r) (ring r).
+Definition set_used_features (r : lstate_t) (v : N) : lstate_t := mk_state (st r) (adv_ch r) (chan r) (sca r) (tm r) (cs r) (proc_timeout r) (def_instant r) (deferred r) (term_sent r) v (pending_event r) (disc_reason r) (pr r) (bf r) (sc r) (ac r) (ring r).
+Definition set_pending_event (r : lstate_t) (v : bool) : lstate_t := mk_state (st r) (adv_ch r) (chan r) (sca r) (tm r) (cs r) (proc_timeout r) (def_instant r) (deferred r) (term_sent r) (used_features r) v (disc_reason r) (pr r) (bf r) (sc r) (ac r) (ring r).
+Definition set_disc_reason (r : lstate_t) (v : N) : lstate_t := mk_state (st r) (adv_ch r) (chan r) (sca r) (tm r) (cs r) (proc_timeout r) (def_instant r) (deferred r) (term_sent r) (used_features r) (pending_event r) v (pr r) (bf r) (sc r) (ac r) (ring r).
+Definition set_pr (r : lstate_t) (v : procs) : lstate_t := mk_state (st r) (adv_ch r) (chan r) (sca r) (tm r) (cs r) (proc_timeout r) (def_instant r) (deferred r) (term_sent r) (used_features r) (pending_event r) (disc_reason r) v (bf r) (sc r) (ac r) (ring r).
+Definition set_bf (r : lstate_t) (v : bufs) : lstate_t := mk_state (st r) (adv_ch r) (chan r) (sca r) (tm r) (cs r) (proc_timeout r) (def_instant r) (deferred r) (term_sent r) (used_features r) (pending_event r) (disc_reason r) (pr r) v (sc r) (ac r) (ring r).
+Definition set_sc (r : lstate_t) (v : sec) : lstate_t := mk_state (st r) (adv_ch r) (chan r) (sca r) (tm r) (cs r) (proc_timeout r) (def_instant r) (deferred r) (term_sent r) (used_features r) (pending_event r) (disc_reason r) (pr r) (bf r) v (ac r) (ring r).
+Definition set_ac (r : lstate_t) (v : acpr) : lstate_t := mk_state (st r) (adv_ch r) (chan r) (sca r) (tm r) (cs r) (proc_timeout r) (def_instant r) (deferred r) (term_sent r) (used_features r) (pending_event r) (disc_reason r) (pr r) (bf r) (sc r) v (ring r).
+Definition set_ring (r : lstate_t) (v : list cb_event) : lstate_t := mk_state (st r) (adv_ch r) (chan r) (sca r) (tm r) (cs r) (proc_timeout r) (def_instant r) (deferred r) (term_sent r) (used_features r) (pending_event r) (disc_reason r) (pr r) (bf r) (sc r) (ac r) v.
 
 (* ------------------------------------------------------------------------------------------ outputs *)
 Inductive item :=
@@ -214,61 +214,61 @@ Inductive item :=
 | ISetup (key : list N) (skdm ivm : N)
 | ISt (s : lstate) (evc chidx tsle ptimeout used : N) (defop : option N) (instant : N) (flags : list bool).
 
-Inductive out := OItems (l : list item) | OPre | OBadOp | OFault.
+Inductive lout := OItems (l : list item) | OPre | OBadOp | OCrash.
 
-Inductive op :=
+Inductive lop :=
 | Run | AdvTimeout | Adv (hdr0 : N) (body : list N) | Ev (evts : N) (pdus : list pdu) | Timeout
 | Disconnect (reason : option N) | Cpu (a b c d : N) | Cpr (a b c d : N) | PhyReq (t r : N) | VerReq
 | TxAvail (b : bool) | Cancel (b : bool) (us : N) | CprReply (a b c d : N) | CprNeg (r : N) | Key (b : bool) | St.
 
-(* ------------------------------------------------------------------------------------------ initial state *)
+(* ------------------------------------------------------------------------------------------ initial lstate_t *)
 Definition advertising_access_address : N := 2391391958.   (* 0x8E89BED6 *)
 Definition advertising_crc_init : N := 5592405.            (* 0x555555 *)
 
-Definition init (c : cfg) : state :=
+Definition linit (c : cfg) : lstate_t :=
   mk_state Initial GenLL.first_advertising_channel ChanMapModel.init 0
     (mk_timing 0 0 0 0 0 0) (mk_cstate 0 0 0 1) 0 0 None false (supported_features c) false 0
     (mk_procs 0 0 0 0 false false false false 0 0 false false)
     (mk_bufs [] [] FNone false true) (mk_sec false false false false) (mk_acpr false false 0 0 0 0 0) [].
 
-Definition upd_tm (s : state) (f : timing -> timing) : state := set_tm s (f (tm s)).
-Definition upd_cs (s : state) (f : cstate -> cstate) : state := set_cs s (f (cs s)).
-Definition upd_pr (s : state) (f : procs -> procs) : state := set_pr s (f (pr s)).
-Definition upd_bf (s : state) (f : bufs -> bufs) : state := set_bf s (f (bf s)).
-Definition upd_sc (s : state) (f : sec -> sec) : state := set_sc s (f (sc s)).
-Definition upd_ac (s : state) (f : acpr -> acpr) : state := set_ac s (f (ac s)).
+Definition upd_tm (s : lstate_t) (f : timing -> timing) : lstate_t := set_tm s (f (tm s)).
+Definition upd_cs (s : lstate_t) (f : cstate -> cstate) : lstate_t := set_cs s (f (cs s)).
+Definition upd_pr (s : lstate_t) (f : procs -> procs) : lstate_t := set_pr s (f (pr s)).
+Definition upd_bf (s : lstate_t) (f : bufs -> bufs) : lstate_t := set_bf s (f (bf s)).
+Definition upd_sc (s : lstate_t) (f : sec -> sec) : lstate_t := set_sc s (f (sc s)).
+Definition upd_ac (s : lstate_t) (f : acpr -> acpr) : lstate_t := set_ac s (f (ac s)).
 
-Definition in_connection (s : state) : bool :=
+Definition in_connection (s : lstate_t) : bool :=
   match st s with Connecting | Connected | Disconnecting | ConnChanged => true | _ => false end.
 
 (* details() *)
-Definition details_of (s : state) : details :=
+Definition details_of (s : lstate_t) : details :=
   mk_details (interval (tm s) / GenLL.us_per_digits) (latency (tm s)) (timeout_value (tm s)) (sca s).
 
 (* ------------------------------------------------------------------------------------------ callbacks *)
 (* connection_callbacks<>::events_.try_push( data ): ring< max_events, event_data >; the result is ignored *)
-Definition push_event (c : cfg) (s : state) (e : cb_event) : state :=
+Definition push_event (c : cfg) (s : lstate_t) (e : cb_event) : lstate_t :=
   if c_cb c then
     if N.of_nat (length (ring s)) <? GenLL.max_events then set_ring s (ring s ++ [e]) else s
   else s.
 
 (* handle_connection_events(): pop everything and call the user *)
-Definition flush_events (s : state) : state * list item := (set_ring s [], map ICb (ring s)).
+Definition flush_events (s : lstate_t) : lstate_t * list item := (set_ring s [], map ICb (ring s)).
 
 (* ------------------------------------------------------------------------------------------ buffers *)
-Definition pending_outgoing_data_available (s : state) : bool := match txq (bf s) with [] => false | _ => true end.
+Definition pending_outgoing_data_available (s : lstate_t) : bool := match txq (bf s) with [] => false | _ => true end.
 
 (* allocate_ll_transmit_buffer( n ) / allocate_l2cap_transmit_buffer: size != 0 ? *)
-Definition tx_buffer_available (s : state) : bool := tx_avail (bf s).
+Definition tx_buffer_available (s : lstate_t) : bool := tx_avail (bf s).
 
 (* commit_ll_transmit_buffer / commit_transmit_buffer: ignored once stop_ll_pdu_buffer() was called *)
-Definition commit (s : state) (p : pdu) : state :=
+Definition commit (s : lstate_t) (p : pdu) : lstate_t :=
   if stopped (bf s) then s else upd_bf s (fun b => set_txq b (txq b ++ [p])).
-Definition commit_ctrl (s : state) (body : list N) : state := commit s (GenLL.ll_control_pdu_code, body).
+Definition commit_ctrl (s : lstate_t) (body : list N) : lstate_t := commit s (GenLL.ll_control_pdu_code, body).
 
 (* ll_data_pdu_buffer::received( pdu ) for a packet of a central that acknowledges everything:
    acknowledge(); push the PDU if it has a length and a LLID; next_transmit() *)
-Definition radio_exchange (s : state) (rx : option pdu) : state * list item * bool :=
+Definition radio_exchange (s : lstate_t) (rx : option pdu) : lstate_t * list item * bool :=
   let b := bf s in
   let tq := match fl b with FHead => tl (txq b) | _ => txq b end in
   let rq := match rx with
@@ -285,7 +285,7 @@ Definition radio_exchange (s : state) (rx : option pdu) : state * list item * bo
 
 (* the radio's part of a connection event: one exchange per PDU of the central (at least one), continued while
    the peripheral signals more data. [fuel] bounds the number of exchanges (length pdus + length txq + 1 suffice) *)
-Fixpoint radio_event (fuel : nat) (s : state) (pdus : list pdu) : state * list item :=
+Fixpoint radio_event (fuel : nat) (s : lstate_t) (pdus : list pdu) : lstate_t * list item :=
   match fuel with
   | O => (s, [])
   | S fuel' =>
@@ -344,10 +344,10 @@ Definition sleep_clock_accuracy (body : list N) : N :=
   nth (N.to_nat (N.land (N.shiftr (byte body 33) 5) 7)) GenLL.inaccuracy_ppm 0.
 
 (* ------------------------------------------------------------------------------------------ scheduling *)
-Definition data_channel (s : state) : N := nth (N.to_nat (ch_idx (cs s))) (ChanMapModel.tbl (chan s)) 0.
+Definition data_channel (s : lstate_t) : N := nth (N.to_nat (ch_idx (cs s))) (ChanMapModel.tbl (chan s)) 0.
 
 (* setup_next_connection_event() *)
-Definition setup_next_connection_event (s : state) : option (state * list item) :=
+Definition setup_next_connection_event (s : lstate_t) : option (lstate_t * list item) :=
   let t := tsle (cs s) in
   let a := sca s in
   do w <- (if negb (tw_size (tm s) =? 0) then
@@ -365,14 +365,14 @@ Definition setup_next_connection_event (s : state) : option (state * list item) 
   Some (set_pending_event s true, [ICe (data_channel s) ws we (interval (tm s))]).
 
 (* connection_state_base::plan_next_connection_event_after_timeout *)
-Definition plan_after_timeout (s : state) : option state :=
+Definition plan_after_timeout (s : lstate_t) : option lstate_t :=
   do t <- dt_add (tsle (cs s)) (interval (tm s));
   Some (upd_cs s (fun c => mk_cstate ((ch_idx c + 1) mod 37) (u16 (evc c + 1)) t (last_lat c))).
 
 Definition disarmable (c : cfg) : bool := bit (c_lat c) 1.
 
 (* connection_state_base::plan_next_connection_event( latency, evts, interval, pending_instant ) *)
-Definition plan_next_connection_event (c : cfg) (s : state) (evts : N) : option state :=
+Definition plan_next_connection_event (c : cfg) (s : lstate_t) (evts : N) : option lstate_t :=
   let f := c_lat c in
   let listen := (bit f 2 && bit evts 1) || (bit f 4 && bit evts 2) || (bit f 8 && bit evts 4)
                 || (bit f 16 && bit evts 8) || (bit f 1 && bit evts 16) || bit f 32 || bit evts 32 in
@@ -394,15 +394,15 @@ Definition plan_next_connection_event (c : cfg) (s : state) (evts : N) : option 
 Definition next_adv_channel (ch : N) : N := if ch =? 39 then 37 else ch + 1.
 
 (* handle_start_advertising(): the channel is NOT reset to 37 *)
-Definition handle_start_advertising (s : state) : state * list item :=
+Definition handle_start_advertising (s : lstate_t) : lstate_t * list item :=
   (s, [IAa advertising_access_address advertising_crc_init; IAdv (adv_ch s)]).
 
 (* handle_adv_timeout() *)
-Definition handle_adv_timeout (s : state) : state * list item :=
+Definition handle_adv_timeout (s : lstate_t) : lstate_t * list item :=
   let ch := next_adv_channel (adv_ch s) in (set_adv_ch s ch, [IAdv ch]).
 
 (* start_advertising_impl() *)
-Definition start_advertising_impl (s : state) : state * list item :=
+Definition start_advertising_impl (s : lstate_t) : lstate_t * list item :=
   handle_start_advertising (set_deferred (set_st s Advertising) None).
 
 (* advertising_type_base::is_valid_connect_request (default layout, random own address; the harness makes the
@@ -413,14 +413,14 @@ Definition valid_connect_request (c : cfg) (hdr0 : N) (body : list N) : bool :=
 
 (* ------------------------------------------------------------------------------------------ disconnecting *)
 (* link_layer_security_impl::reset_encryption() *)
-Definition reset_encryption (c : cfg) (s : state) : state * list item :=
+Definition reset_encryption (c : cfg) (s : lstate_t) : lstate_t * list item :=
   if c_enc c then (upd_sc s (fun x => set_is_enc x false), [IEncRx false; IEncTx false]) else (s, []).
 
 (* phy_update_request_impl::reset_phy *)
 Definition reset_phy (c : cfg) : list item := if c_phy c then [IPhy 1 1] else [].
 
 (* force_disconnect() *)
-Definition force_disconnect (c : cfg) (s : state) : state * list item :=
+Definition force_disconnect (c : cfg) (s : lstate_t) : lstate_t * list item :=
   let '(s1, i1) := reset_encryption c s in
   let s2 := match st s1 with
             | Connecting => push_event c s1 EvAttemptTimeout
@@ -429,12 +429,12 @@ Definition force_disconnect (c : cfg) (s : state) : state * list item :=
   let '(s3, i3) := start_advertising_impl s2 in
   (s3, i1 ++ reset_phy c ++ i3).
 
-Definition force_disconnect_reason (c : cfg) (s : state) (r : N) : state * list item :=
+Definition force_disconnect_reason (c : cfg) (s : lstate_t) (r : N) : lstate_t * list item :=
   force_disconnect c (set_disc_reason s r).
 
 (* ------------------------------------------------------------------------------------------ control PDUs *)
 (* reject( opcode, error_code, output ) *)
-Definition reject_pdu (s : state) (opcode err : N) : list N :=
+Definition reject_pdu (s : lstate_t) (opcode err : N) : list N :=
   if bit (used_features s) GenLL.feature_extended_reject_indication
   then [GenLL.LL_REJECT_EXT_IND; opcode; err] else [GenLL.LL_REJECT_IND; err].
 
@@ -447,7 +447,7 @@ Definition cpr_reject : list N :=
   [GenLL.LL_REJECT_EXT_IND; GenLL.LL_CONNECTION_PARAM_REQ; GenLL.invalid_ll_paramerters].
 
 (* handle_connection_parameters_request< layout >( pdu, write, details() ): ( response to commit, callback ) *)
-Definition handle_cpr (c : cfg) (s : state) (body : list N) : option (list N) * list item :=
+Definition handle_cpr (c : cfg) (s : lstate_t) (body : list N) : option (list N) * list item :=
   if negb (cpr_params_ok body) then (Some cpr_reject, [])
   else
     match c_cpr c with
@@ -483,12 +483,12 @@ Definition ivs_bytes : list N := le_bytes 4 2018915346.              (* 0x785634
 Definition toy_key : list N := [1; 128; 2; 112; 3; 96; 4; 80; 5; 64; 6; 48; 7; 32; 8; 16].
 Definition zero_key : list N := repeat 0 16.
 
-(* connection_changed( details(), ... ) after a change of the encryption state *)
-Definition encryption_changed (c : cfg) (s : state) (changed : bool) : state :=
+(* connection_changed( details(), ... ) after a change of the encryption lstate_t *)
+Definition encryption_changed (c : cfg) (s : lstate_t) (changed : bool) : lstate_t :=
   if changed then push_event c s (EvChanged (details_of s)) else s.
 
-(* handle_ll_control_data( pdu, write ): state, items, result. The PDU has LLID 3 and size = length body > 0. *)
-Definition handle_ll_control (c : cfg) (s : state) (body : list N) : state * list item * ll_result :=
+(* handle_ll_control_data( pdu, write ): lstate_t, items, result. The PDU has LLID 3 and size = length body > 0. *)
+Definition handle_ll_control (c : cfg) (s : lstate_t) (body : list N) : lstate_t * list item * ll_result :=
   let size := N.of_nat (length body) in
   let opcode := if 0 <? size then byte body 0 else 255 in
   let evc := evc (cs s) in
@@ -574,7 +574,7 @@ Definition handle_ll_control (c : cfg) (s : state) (body : list N) : state * lis
   else (s, [], GoAhead).
 
 (* handle_pending_ll_control( connection_event_counter() ) *)
-Definition handle_pending_ll_control (c : cfg) (s : state) : option (state * list item * ll_result) :=
+Definition handle_pending_ll_control (c : cfg) (s : lstate_t) : option (lstate_t * list item * ll_result) :=
   match deferred s with
   | Some body =>
       if def_instant s =? evc (cs s) then
@@ -602,7 +602,7 @@ Definition handle_pending_ll_control (c : cfg) (s : state) : option (state * lis
 (* handle_received_data(): [fuel] >= length of the receive queue + 1.
    NOTE: a PDU that is neither LLID 3 nor an accepted LLID 2 stays at the head of the queue; for LLID 1 (a
    continuation fragment, passed through by ll_l2cap_sdu_buffer< ..., 23 >) that is for ever. *)
-Fixpoint handle_received_data (fuel : nat) (c : cfg) (s : state) : state * list item * ll_result :=
+Fixpoint handle_received_data (fuel : nat) (c : cfg) (s : lstate_t) : lstate_t * list item * ll_result :=
   match fuel with
   | O => (s, [], GoAhead)
   | S fuel' =>
@@ -612,7 +612,7 @@ Fixpoint handle_received_data (fuel : nat) (c : cfg) (s : state) : state * list 
           match rxq (bf s) with
           | [] => (s, [], GoAhead)
           | (llid, body) :: rest =>
-              let pop (x : state) := upd_bf x (fun b => set_rxq b rest) in
+              let pop (x : lstate_t) := upd_bf x (fun b => set_rxq b rest) in
               if llid =? GenLL.ll_control_pdu_code then
                 if tx_buffer_available s then
                   let '(s1, it, r) := handle_ll_control c s body in
@@ -637,14 +637,14 @@ Fixpoint handle_received_data (fuel : nat) (c : cfg) (s : state) : state * list 
   end.
 
 (* send_control_pdus() *)
-Definition send_control_pdus (s : state) : state :=
+Definition send_control_pdus (s : lstate_t) : lstate_t :=
   if lstate_eqb (st s) Disconnecting && negb (term_sent s) && tx_buffer_available s then
     let s1 := commit_ctrl s [GenLL.LL_TERMINATE_IND; disc_reason s] in
     set_term_sent (upd_bf s1 (fun b => set_stopped b true)) true
   else s.
 
 (* link_layer_security_impl::transmit_pending_security_pdus() *)
-Definition transmit_pending_security_pdus (c : cfg) (s : state) : state * list item :=
+Definition transmit_pending_security_pdus (c : cfg) (s : lstate_t) : lstate_t * list item :=
   if c_enc c && enc_prog (sc s) && tx_buffer_available s then
     let s1 := upd_sc s (fun x => set_enc_prog x false) in
     if has_key (sc s)
@@ -654,7 +654,7 @@ Definition transmit_pending_security_pdus (c : cfg) (s : state) : state * list i
 
 (* transmit_pending_control_pdus().
    NOTE (defect #23): the LL_PHY_REQ branch does not arm procedure_timeout_. *)
-Definition transmit_pending_control_pdus (c : cfg) (s : state) : state :=
+Definition transmit_pending_control_pdus (c : cfg) (s : lstate_t) : lstate_t :=
   let p := pr s in
   let async_pending := match c_cpr c with CprAsync => ap_pending (ac s) | _ => false end in
   if negb (cpr_pending p) && negb (phy_pending p) && negb (ver_pending p) && negb async_pending then s
@@ -679,11 +679,11 @@ Definition transmit_pending_control_pdus (c : cfg) (s : state) : state :=
     else commit_ctrl s1 ([GenLL.LL_CONNECTION_PARAM_RSP; lo8 (ap_min a); hi8 (ap_min a); lo8 (ap_max a); hi8 (ap_max a);
                           lo8 (ap_lat a); hi8 (ap_lat a); lo8 (ap_to a); hi8 (ap_to a); 0] ++ repeat 255 14).
 
-Definition fault_out (s : state) : state * out := (s, OFault).
+Definition fault_out (s : lstate_t) : lstate_t * lout := (s, OCrash).
 
 (* the common tail of timeout() and end_event(): handle_pending_ll_control, then force_disconnect or
    setup_next_connection_event *)
-Definition pending_then_setup (c : cfg) (s : state) : option (state * list item) :=
+Definition pending_then_setup (c : cfg) (s : lstate_t) : option (lstate_t * list item) :=
   do r <- handle_pending_ll_control c s;
   let '(s1, it, res) := r in
   match res with
@@ -692,7 +692,7 @@ Definition pending_then_setup (c : cfg) (s : state) : option (state * list item)
   end.
 
 (* timeout() *)
-Definition do_timeout (c : cfg) (s : state) : option (state * list item) :=
+Definition do_timeout (c : cfg) (s : lstate_t) : option (lstate_t * list item) :=
   let s0 := set_pending_event s false in
   let t := tsle (cs s0) in
   do r <-
@@ -711,7 +711,7 @@ Definition do_timeout (c : cfg) (s : state) : option (state * list item) :=
   Some (s3, it ++ cbs).
 
 (* end_event( evts ), after the radio's part of the event *)
-Definition do_end_event (c : cfg) (s : state) (evts : N) : option (state * list item) :=
+Definition do_end_event (c : cfg) (s : lstate_t) (evts : N) : option (lstate_t * list item) :=
   let s0 := set_pending_event s false in
   let s1 := match st s0 with Connecting => push_event c s0 (EvEstablished (details_of s0)) | _ => s0 end in
   let s2 := if lstate_eqb (st s1) Disconnecting then s1
@@ -747,7 +747,7 @@ Definition do_end_event (c : cfg) (s : state) (evts : N) : option (state * list 
   Some (s11, it ++ cbs).
 
 (* adv_received( receive ) *)
-Definition do_adv_received (c : cfg) (s : state) (hdr0 : N) (body : list N) : option (state * list item) :=
+Definition do_adv_received (c : cfg) (s : lstate_t) (hdr0 : N) (body : list N) : option (lstate_t * list item) :=
   if valid_connect_request c hdr0 body then      (* no white list: is_connection_request_in_filter() = true *)
     let '(ch, r) := ChanMapModel.reset_impl (chan s) (slice body 28 5) (N.land (byte body 33) 31) in
     let s1 := set_chan s ch in
@@ -782,7 +782,7 @@ Definition do_adv_received (c : cfg) (s : state) (hdr0 : N) (body : list N) : op
   else Some (handle_adv_timeout s).
 
 (* try_event_cancelation() with disarm_connection_event() -> ( b, us ) *)
-Definition do_cancel (c : cfg) (s : state) (b : bool) (us : N) : option (state * list item) :=
+Definition do_cancel (c : cfg) (s : lstate_t) (b : bool) (us : N) : option (lstate_t * list item) :=
   if (lstate_eqb (st s) Connected || lstate_eqb (st s) Connecting) && pending_event s
      && disarmable c && negb (last_lat (cs s) =? 1) then
     if b then
@@ -804,7 +804,7 @@ Definition do_cancel (c : cfg) (s : state) (b : bool) (us : N) : option (state *
     else Some (s, [IDisarm])
   else Some (s, []).
 
-Definition st_item (s : state) : item :=
+Definition st_item (s : lstate_t) : item :=
   if in_connection s then
     ISt (st s) (evc (cs s)) (ch_idx (cs s)) (tsle (cs s)) (proc_timeout s) (used_features s)
         (match deferred s with Some b => Some (byte b 0) | None => None end)
@@ -812,11 +812,11 @@ Definition st_item (s : state) : item :=
         [cpr_pending (pr s); cpr_running (pr s); cpr_sig (pr s); phy_pending (pr s); ver_pending (pr s); ver_received (pr s)]
   else ISt (st s) 0 0 0 0 0 None 0 [false; false; false; false; false; false].
 
-Definition ok_items (r : option (state * list item)) (s : state) : state * out :=
-  match r with Some (s', it) => (s', OItems it) | None => (s, OFault) end.
+Definition ok_items (r : option (lstate_t * list item)) (s : lstate_t) : lstate_t * lout :=
+  match r with Some (s', it) => (s', OItems it) | None => (s, OCrash) end.
 
 (* one operation of the harness *)
-Definition step (c : cfg) (s : state) (o : op) : state * out :=
+Definition lstep (c : cfg) (s : lstate_t) (o : lop) : lstate_t * lout :=
   match o with
   | Run =>
       match st s with
@@ -840,7 +840,7 @@ Definition step (c : cfg) (s : state) (o : op) : state * out :=
           let '(s1, it1) := radio_event (S (length pdus + length (txq (bf s)))) s pdus in
           match do_end_event c s1 evts with
           | Some (s2, it2) => (s2, OItems (it1 ++ it2))
-          | None => (s1, OFault)
+          | None => (s1, OCrash)
           end
       else (s, OPre)
   | Timeout => if in_connection s then ok_items (do_timeout c s) s else (s, OPre)
@@ -890,14 +890,14 @@ Definition step (c : cfg) (s : state) (o : op) : state * out :=
   | St => (s, OItems [st_item s])
   end.
 
-Fixpoint run (c : cfg) (s : state) (ops : list op) : list (op * out) :=
+Fixpoint lrun (c : cfg) (s : lstate_t) (ops : list lop) : list (lop * lout) :=
   match ops with
   | [] => []
-  | o :: t => let '(s', r) := step c s o in (o, r) :: run c s' t
+  | o :: t => let '(s', r) := lstep c s o in (o, r) :: lrun c s' t
   end.
 
-Fixpoint final (c : cfg) (s : state) (ops : list op) : state :=
+Fixpoint lfinal (c : cfg) (s : lstate_t) (ops : list lop) : lstate_t :=
   match ops with
   | [] => s
-  | o :: t => final c (fst (step c s o)) t
+  | o :: t => lfinal c (fst (lstep c s o)) t
   end.
